@@ -44,9 +44,34 @@ func TestNodeDump(t *testing.T) {
 		OK      bool      `json:"ok"`
 		Obs     *spec.Obs `json:"obs,omitempty"`
 		Steps   []step    `json:"steps,omitempty"`
+		// form-urlencoded codec (kind "q"): Query parsed by the model into Pairs, those serialized again,
+		// and the pairs after the standard's sort (by name in UTF-16 code units, stable)
+		Kind   string      `json:"kind,omitempty"`
+		Query  string      `json:"query,omitempty"`
+		Pairs  [][2]string `json:"pairs,omitempty"`
+		Ser    string      `json:"ser,omitempty"`
+		Sorted [][2]string `json:"sorted,omitempty"`
 	}
 	rapid.Check(t, func(t *rapid.T) {
-		if rapid.IntRange(0, 1).Draw(t, "kind") == 0 {
+		k := rapid.IntRange(0, 2).Draw(t, "kind")
+		if k == 2 {
+			q := sv(genQuery(t))
+			if rapid.IntRange(0, 3).Draw(t, "order") == 0 {
+				q = sv(genOrderQuery(t))
+			}
+			r := rec{Kind: "q", Query: q, Pairs: [][2]string{}, Sorted: [][2]string{}}
+			l := spec.ParseURLEncoded(q)
+			for _, p := range l {
+				r.Pairs = append(r.Pairs, [2]string{p.Name, p.Value})
+			}
+			r.Ser = spec.SerializeURLEncoded(l)
+			for _, p := range listModel(collapseList(l)).apply(SPOp{Op: "sort"}) {
+				r.Sorted = append(r.Sorted, [2]string{p.Name, p.Value})
+			}
+			_ = enc.Encode(r)
+			return
+		}
+		if k == 0 {
 			c := Gen01(t)
 			c.Input, c.Base = B(sv(string(c.Input))), B(sv(string(c.Base)))
 			var tr spec.Trace
